@@ -59,7 +59,7 @@ class Contract:
                  raises=None, may_raise=(), defines=None, loops=None, ghosts=(), locals=None,
                  ghost_init=None, trusted=False, inline=False, note="", props=(),
                  ghost_params=None, result_name="result", lemmas=(), pure=True,
-                 must_raise=None, logs=None, map_keys=None, raise_allowed=None, ghost_results=None, call_site=True, silent=None, mode=None, callee_modes=None):
+                 must_raise=None, logs=None, map_keys=None, raise_allowed=None, ghost_results=None, call_site=True, silent=None, mode=None, callee_modes=None, callee_ensures=None):
         self.key = key
         self.inst = inst
         self.params = OrderedDict(params)
@@ -97,6 +97,9 @@ class Contract:
         # safety mode resolve their callees to safety instances where one exists
         self.mode = mode
         self.callee_modes = dict(callee_modes or {})
+        # callee key -> prefixes of the callee's ensures names that this unit imports (fewer
+        # hypotheses: sound; keeps large callers' VCs small).  Absent: all.
+        self.callee_ensures = dict(callee_ensures or {})
         self.native_oracle = None     # see contracts/oracles.py (bounded stand-in only)
         self.oracle_order = None
 
